@@ -130,7 +130,8 @@ def r17_2(ctx) -> None:
         ctx.count("generator_based_awaitables")
         cfg = cfg_of(u)
         alive = live(cfg)
-        reach_yield = [n for n in alive if n.kind == "yield"]
+        from .common import empty_delegation
+        reach_yield = [n for n in alive if n.kind == "yield" and not empty_delegation(n)]
         if reach_yield:
             for n in reach_yield:
                 ctx.fail("R17.2", u, n, "reachable yield in a generator-based awaitable hands a value "
